@@ -460,14 +460,15 @@ TASK_STATE_MACHINE_DATA = {
 
 
 # The events that carry the status of the items of a with items task are defined for a task that
-# is running, pausing or canceling. A task that has yet to reach running (or that is resuming)
-# handles them like a running task and a paused task like a pausing task.
+# is running, pausing or canceling. A task that has yet to reach running (or that is resuming or
+# is waiting to be retried) handles them like a running task and a paused task like a pausing task.
 WITH_ITEMS_PROXY_STATUSES = {
     statuses.UNSET: statuses.RUNNING,
     statuses.REQUESTED: statuses.RUNNING,
     statuses.SCHEDULED: statuses.RUNNING,
     statuses.DELAYED: statuses.RUNNING,
     statuses.RESUMING: statuses.RUNNING,
+    statuses.RETRYING: statuses.RUNNING,
     statuses.PAUSED: statuses.PAUSING,
 }
 
